@@ -760,3 +760,37 @@ Example C01_plan_history_agrees :
   p_build_log mix_run (plan_tab tabOK) uF9 uF9 (p_resync uF9 y2 (wOK 2 2)) = [(1, true); (2, false); (3, false); (4, false)] /\
   same_result_pb uF9 y3 (bwOK (wOK 2 2) (p_empty uF9)) = true.
 Proof. vm_compute. repeat split; reflexivity. Qed.
+
+(* ------------------------------------------------------------------------------------------ *)
+(* Environment overrides of a step (model/EngineOvr.v)                                         *)
+(* ------------------------------------------------------------------------------------------ *)
+From SV Require Import model.EngineOvr proofs.EngineOvrProofs.
+
+(* The overrides (leading VAR=value words of the command, the env_overrides argument) are part of
+   the step definition and an ingredient of its hash, but not of its label.  Encoding: step id =
+   [oid key o] (node key, code of the override set; 0 = none).  The encoding loses nothing, and
+   every theorem above quantifies over all ids, hence over all override codes: for the recycle
+   rule of the model a plan edit that adds, changes or removes the overrides of a step is a
+   re-definition and C01_plan_edits_equiv_scratch_partial applies. *)
+Theorem C01_override_encoding_injective :
+  forall k k' o o', o < ovr_base -> o' < ovr_base -> oid k o = oid k' o' -> k = k' /\ o = o'.
+Proof. exact oid_inj. Qed.
+
+(* Finding F10 (replayed on the real system: guard cases env-overrides:...): the recycle test of the
+   code compares key, inputs, variables and outputs, not the overrides, and keeps the state: the
+   step whose overrides 7 were removed stays SUCCEEDED, nothing runs ([]), its output is the one
+   produced under the overrides and differs from a build from scratch; with the recycle rule of
+   the model the step reruns and the results agree. *)
+Theorem C01_F10_engine_refuted :
+  let y1 := rebuild_dyn mix_run [] empty_sys (f10_P 7) f10_w in
+  let inc_code := rebuild_ovr_code mix_run (f10_P 7) y1 (f10_P 0) f10_w in
+  let inc := rebuild_dyn mix_run (f10_P 7) y1 (f10_P 0) f10_w in
+  let scr := rebuild_dyn mix_run [] empty_sys (f10_P 0) f10_w in
+  wf (f10_P 0) = true /\
+  stt y1 (oid 1 7) = Succeeded /\
+  build_log mix_run (f10_P 0) (f10_P 0) (resync (f10_P 0) (retarget_ovr_code (f10_P 7) (f10_P 0) y1) f10_w) = [] /\
+  stt inc_code (oid 1 0) = Succeeded /\ same_result_b (f10_P 0) inc_code scr = false /\
+  build_log mix_run (f10_P 0) (f10_P 0) (resync (f10_P 0) (retarget (f10_P 7) (f10_P 0) y1) f10_w)
+  = [(oid 1 0, true)] /\
+  same_result_b (f10_P 0) inc scr = true.
+Proof. exact F10_engine_refuted. Qed.
